@@ -37,3 +37,23 @@ Definition rank_ok (infos : list vinfo) (w : weights) : bool := forallb (score_o
 Definition pick_ov (sn : snapshot) (ms : list metric) (fs : list (Z * Z)) (w : weights)
            (chain : Z) (req : option bool) (ts : Z) : pick_result :=
   if rank_ok (build_infos sn ms fs) w then pick sn ms fs w chain req ts else PickPanic.
+
+(** RelayWeights.Validate (x/evm/types/relay_weights.go), called by Keeper.SetRelayWeights before the
+    write: every weight is a decimal in [0, maxRelayWeight].  (A string that does not parse, or lies
+    outside the LegacyDec range, is refused by DecValues; raw integers beyond the bound cover both.) *)
+Definition max_weight : Z := of_int Gen.C14.max_relay_weight.
+Definition valid_weight (x : Z) : bool := (0 <=? x) && (x <=? max_weight).
+Definition valid_weights (w : weights) : bool :=
+  valid_weight (w_fee w) && valid_weight (w_uptime w) && valid_weight (w_success w) &&
+  valid_weight (w_exec w) && valid_weight (w_feature w).
+
+(** the stored weights of a chain: ValueOrDefault of what AddSupportForNewChain / genesis wrote (1.0 each),
+    then whatever SetRelayWeights accepted (nil = back to the defaults) *)
+Definition default_weights : weights :=
+  {| w_fee := one; w_uptime := one; w_success := one; w_exec := one; w_feature := one |}.
+Definition set_weights (cur : weights) (w : option weights) : weights :=
+  match w with
+  | None => default_weights
+  | Some x => if valid_weights x then x else cur
+  end.
+Definition stored_weights (sets : list (option weights)) : weights := fold_left set_weights sets default_weights.
